@@ -31,6 +31,9 @@ def corpus(tier, seed):
         # from model.names
         std_spec("angle2", s + 23, 50, reparameterisations={"y": "rescaletobounds"}),
         std_spec("rosen2", s + 24, 50, reparameterisations={"x1": {"reparameterisation": "default"}}),
+        # unnormalised likelihoods: ln Z ~ -700 / +700
+        std_spec("offlow2", s + 25, 25),
+        std_spec("offhigh2", s + 26, 25),
     ]
     if tier == "thorough":
         k = 11
@@ -53,6 +56,8 @@ def ins_corpus(tier, seed):
         ins_spec("gauss2", s + 4, 80, n_initial=150, draw_constant=False, kills=[300, 300]),
         ins_spec("gauss2", s + 5, 100, max_iteration=2, reparameterisation=None),
         ins_spec("trunc2", s + 6, 100, max_iteration=4),          # samples with log-likelihood -inf are returned
+        ins_spec("offlow2", s + 7, 100, max_iteration=3),         # ln Z ~ -700: exp(ln Z) underflows float64
+        ins_spec("offhigh2", s + 8, 100, max_iteration=3),        # ln Z ~ +700
     ]
     if tier == "thorough":
         k = 6
